@@ -3,7 +3,7 @@ import struct, zlib
 import etf, termgen, bytesgen
 
 ID = "C02"
-GEN_FILES = ["DecoderArms.v", "Tags.v", "Limits.v"]
+GEN_FILES = ["DecoderArms.v", "Tags.v", "Limits.v", "Prealloc.v"]
 RULE = ("byte strings fed to every decoding entry point (decode, decode_borrowed, decode_with_trailing, decode_raw_term, decode_with_cache, "
         "decode_with_atom_cache, decode_fragment_header, decode_fragment_cont) on a 2 MiB stack under a counting allocator: every tag x boundary values of its count field with 0..k bytes "
         "behind it, nesting chains through every container tag at depths 10..200000, truncation at every offset of valid encodings, bit "
